@@ -25,19 +25,19 @@ const NCANARY: usize = 4;
 enum Act {
     Push,
     Pop,
-    Get(u8),
-    GetMut(u8),
-    Index(u8),
-    IndexMut(u8),
+    Get(u16),
+    GetMut(u16),
+    Index(u16),
+    IndexMut(u16),
     Iter,
     IterMut,
     Slices,
     SlicesMut,
-    Drain(u8),
-    Extend(u8),
+    Drain(u16),
+    Extend(u16),
     Meta,
     // fixed only
-    SetFirst(u8),
+    SetFirst(u16),
     IterLoop,
 }
 
@@ -82,7 +82,7 @@ impl Act {
     }
     fn parse(s: &str) -> Option<Act> {
         let (h, a) = match s.split_once(':') {
-            Some((h, a)) => (h, a.parse::<u8>().ok()?),
+            Some((h, a)) => (h, a.parse::<u16>().ok()?),
             None => (s, 0),
         };
         Some(match h {
@@ -849,8 +849,8 @@ fn ctor_case(cap: usize, start: usize, len: usize) -> Result<(), Mismatch> {
 // -------------------------------------------------------- stateright models
 #[derive(Clone, Debug, Hash, PartialEq, Eq)]
 struct St {
-    start: u8,
-    len: u8,
+    start: u16,
+    len: u16,
     bad: bool,
 }
 
@@ -859,24 +859,26 @@ struct RingModel {
     sys: &'static str,
     kind: Kind,
     cap: usize,
+    /// large capacities: index-taking actions only at structured indices
+    reduced: bool,
     transitions: &'static AtomicU64,
 }
 
 fn bounded_alphabet(cap: usize) -> Vec<Act> {
     let mut v = vec![Act::Push, Act::Pop, Act::Meta, Act::Iter, Act::IterMut, Act::Slices, Act::SlicesMut];
-    for i in 0..=(cap + 1) as u8 {
+    for i in 0..=(cap + 1) as u16 {
         v.extend([Act::Get(i), Act::GetMut(i), Act::Index(i), Act::IndexMut(i), Act::Drain(i)]);
     }
-    v.extend([Act::Extend(1), Act::Extend(2), Act::Extend(cap as u8 + 1)]);
+    v.extend([Act::Extend(1), Act::Extend(2), Act::Extend(cap as u16 + 1)]);
     v
 }
 
 fn fixed_alphabet(n: usize) -> Vec<Act> {
     let mut v = vec![Act::Push, Act::Meta, Act::Iter, Act::IterLoop, Act::IterMut, Act::Slices, Act::SlicesMut];
-    for i in 0..=(2 * n + 1) as u8 {
+    for i in 0..=(2 * n + 1) as u16 {
         v.extend([Act::Get(i), Act::GetMut(i), Act::Index(i), Act::IndexMut(i), Act::SetFirst(i)]);
     }
-    v.extend([Act::Extend(1), Act::Extend(2), Act::Extend(n as u8 + 1)]);
+    v.extend([Act::Extend(1), Act::Extend(2), Act::Extend(n as u16 + 1)]);
     v
 }
 
@@ -888,12 +890,12 @@ impl Model for RingModel {
         if self.sys == "bounded" {
             for s in 0..self.cap {
                 for l in 0..=self.cap {
-                    v.push(St { start: s as u8, len: l as u8, bad: false });
+                    v.push(St { start: s as u16, len: l as u16, bad: false });
                 }
             }
         } else {
             for f in 0..self.cap {
-                v.push(St { start: f as u8, len: self.cap as u8, bad: false });
+                v.push(St { start: f as u16, len: self.cap as u16, bad: false });
             }
         }
         v
@@ -902,7 +904,17 @@ impl Model for RingModel {
         if st.bad {
             return;
         }
-        out.extend(if self.sys == "bounded" { bounded_alphabet(self.cap) } else { fixed_alphabet(self.cap) });
+        let full = if self.sys == "bounded" { bounded_alphabet(self.cap) } else { fixed_alphabet(self.cap) };
+        if !self.reduced {
+            out.extend(full);
+        } else {
+            let c = self.cap as u16;
+            let keep = |i: u16| i <= 1 || i == c / 2 || i + 2 >= c && i <= c + 1 || i == 2 * c - 1 || i >= 2 * c;
+            out.extend(full.into_iter().filter(|a| match a {
+                Act::Get(i) | Act::GetMut(i) | Act::Index(i) | Act::IndexMut(i) | Act::Drain(i) | Act::SetFirst(i) => keep(*i),
+                _ => true,
+            }));
+        }
     }
     fn next_state(&self, st: &St, a: Act) -> Option<St> {
         let case = Case { sys: self.sys, kind: self.kind, cap: self.cap, start: st.start as usize, len: st.len as usize, acts: vec![a] };
@@ -911,7 +923,7 @@ impl Model for RingModel {
         match case.run() {
             Ok((s2, l2, fp)) => {
                 self.ctx.observe(common::mix(common::mix(common::fnv_str(&format!("{}{}{}{}", self.sys, self.cap, st.start, st.len)), common::fnv_str(&a.name())), fp));
-                Some(St { start: s2 as u8, len: l2 as u8, bad: false })
+                Some(St { start: s2 as u16, len: l2 as u16, bad: false })
             }
             Err(m) => {
                 let known = self.ctx.is_known(&m.key).is_some();
@@ -1004,7 +1016,7 @@ fn main() {
     }
     let maxcap = ctx.tier.pick(6, 12);
     ctx.rule(&format!(
-        "merged: stateright BFS to fixpoint, one model instance per (buffer, storage kind, capacity 1..={maxcap}; array/Vec/Box storage for capacities <=4), initial states = every valid raw state, alphabet = push/pop/get/get_mut/Index/IndexMut(i<=cap+1 resp. 2N+1)/iter/iter_mut/iter_loop/slices/slices_mut/drain.take(k)/extend/set_first/len.., each transition = the real operation on a buffer rebuilt with from_raw_parts over position-labelled storage between canaries vs VecDeque; a case is non-trivial and distinct by (state, action, observation fingerprint)"
+        "merged: stateright BFS to fixpoint, one model instance per (buffer, storage kind, capacity 1..={maxcap}; array/Vec/Box storage for capacities <=4), initial states = every valid raw state, alphabet = push/pop/get/get_mut/Index/IndexMut(i<=cap+1 resp. 2N+1)/iter/iter_mut/iter_loop/slices/slices_mut/drain.take(k)/extend/set_first/len.., each transition = the real operation on a buffer rebuilt with from_raw_parts over position-labelled storage between canaries vs VecDeque; a case is non-trivial and distinct by (state, action, observation fingerprint); plus scale probes: capacities 16,17,32,33,64,65 (thorough: also 31,63,100,255,256,257), every raw state an initial state, index-taking actions at indices 0,1,cap/2,cap-2..cap+1,2cap-1.. only"
     ));
     ctx.rule("unmerged: DFS over every history (no relabelling, no merging) over {push,pop,get(i),index(i),iter,slices,drain(1),extend(2)} resp. {push,get(i),set_first(i),iter,iter_loop,slices} from every initial state of capacities <=3 (thorough <=4)");
     ctx.rule("constructors: from_raw_parts over every (cap 1..=9, start 0..=cap+1, len 0..=cap+1) accepts exactly the valid states and panics otherwise; From/from_full/FromIterator initial states");
@@ -1037,12 +1049,21 @@ fn main() {
             }
         }
     }
+    // scale probes: a few much larger capacities (powers of two and their neighbours), every raw
+    // state still an initial state, index-taking actions at structured indices only
+    let big: &[usize] = if ctx.thorough() { &[16, 17, 31, 32, 33, 63, 64, 65, 100, 255, 256, 257] } else { &[16, 17, 32, 33, 64, 65] };
+    for sys in ["bounded", "fixed"] {
+        for &cap in big {
+            instances.push((sys, Kind::Window, cap));
+        }
+    }
+    ctx.set("scale_probe_capacities", json!(big));
     static TRANSITIONS: AtomicU64 = AtomicU64::new(0);
     let transitions = &TRANSITIONS;
     let results: Vec<(usize, usize, usize)> = instances
         .par_iter()
         .map(|&(sys, kind, cap)| {
-            let m = RingModel { ctx, sys, kind, cap, transitions };
+            let m = RingModel { ctx, sys, kind, cap, reduced: cap > 12, transitions };
             let c = m.checker().threads(1).spawn_bfs().join();
             (c.unique_state_count(), c.state_count(), c.max_depth())
         })
@@ -1079,14 +1100,14 @@ fn main() {
             guard::set_hang_secs(300);
             if sys == "bounded" {
                 let mut alpha = vec![Act::Push, Act::Pop, Act::Iter, Act::Slices, Act::Drain(1), Act::Extend(2)];
-                for i in 0..cap as u8 {
+                for i in 0..cap as u16 {
                     alpha.push(Act::Get(i));
                     alpha.push(Act::Index(i));
                 }
                 dfs_bounded(ctx, cap, s, l, ddepth, &alpha, &mut count);
             } else {
                 let mut alpha = vec![Act::Push, Act::Iter, Act::IterLoop, Act::Slices];
-                for i in 0..=cap as u8 {
+                for i in 0..=cap as u16 {
                     alpha.push(Act::Get(i));
                     alpha.push(Act::SetFirst(i));
                 }
